@@ -2,7 +2,7 @@
    exceptions; no signal is lost outside DisableKeyboardInterruptSignal; the shutdown ledger is empty after every
    exit path. *)
 From Coq Require Import List Arith Lia Bool String.
-From Mpv Require Import GenObserve OrderHist Signals.
+From Mpv Require Import GenStruct GenObserve OrderHist Routes RouteProofs Signals.
 Import ListNotations.
 Open Scope nat_scope.
 
@@ -82,7 +82,8 @@ Theorem clean_after_every_exit_path (hist : list pop) (o : pop) (l0 : ledger) :
   clean (lstep (fold_left lstep hist l0) o).
 Proof.
   intros H. set (l := fold_left lstep hist l0). unfold clean, lstep.
-  rewrite terminate_spec, stop_threads_spec, map_terminates_spec, stop_join_spec, pb_mask_spec.
+  rewrite terminate_spec, stop_threads_spec, map_terminates_spec, stop_join_spec, pb_mask_spec,
+    protected_spec, touched_spec, handle_exception_spec.
   destruct H as [H|[H|[H|[H|H]]]]; subst o; cbn; auto.
 Qed.
 
